@@ -104,6 +104,7 @@ func newEtcdSuite(opts map[string]string) *etcdSuite {
 	le := &leader.Stub{ElectionInfo: leader.ElectionInfo{LeaderAddress: "127.0.0.1:0", IsLeader: opts["leader"] != "0"}}
 	s.peers = service.NewPeerService(le, getMetrics(), s.b, service.Config{})
 	s.ib = newInjectBackend(s.b)
+	s.ib.watchDelay = durOpt(opts, "watchdelay", 0)
 	s.srv = etcd.New(s.ib, getMetrics(), s.peers)
 	return s
 }
@@ -455,7 +456,7 @@ func (m *memStream) take() []*etcdserverpb.WatchResponse {
 	return o
 }
 
-func (s *etcdSuite) doWatch(pos []string) string {
+func (s *etcdSuite) doWatch(pos []string, opts map[string]string) string {
 	id := pos[1]
 	ctx, cancel := context.WithCancel(context.Background())
 	m := &memStream{ctx: ctx, cancel: cancel, in: make(chan *etcdserverpb.WatchRequest, 4), done: make(chan struct{})}
@@ -491,6 +492,12 @@ func (s *etcdSuite) doWatch(pos []string) string {
 	}
 	if !m.created {
 		return "watch " + id + " nocreate"
+	}
+	if opts["nowait"] == "1" {
+		// the client's view only: `Created` is all a client can wait for. With cfg watchdelay=<ms> (the handler's
+		// call of Backend.Watch is slowed down) the next request of the script reaches the backend before a handler
+		// that acknowledges first and subscribes second has subscribed (C05)
+		return "watch " + id + " created"
 	}
 	// the registration with the backend (backend.Watch: subscribe to the hub, then read the event cache)
 	// happens asynchronously after the `created` response; what it finds in the cache depends on the
@@ -608,7 +615,7 @@ func (s *etcdSuite) do(t []string) string {
 		}
 		return fmt.Sprintf("rev %d", s.b.GetCurrentRevision())
 	case "watch":
-		return s.doWatch(pos)
+		return s.doWatch(pos, opts)
 	case "wevents":
 		return s.doWevents(pos[1], opts)
 	case "wcancel":
